@@ -26,6 +26,7 @@ type Event struct {
 	C0  int    `json:"c0"` // Count/Size before the call
 	C1  int    `json:"c1"` // Count/Size after the call
 	Now int64  `json:"now"`
+	Ft  int64  `json:"ft"` // clock advance made by the user function during the call (sequential cache programs)
 	Cb  string `json:"cb"`
 	Lo  int    `json:"lo"` // aggregated ballast calls: key range b<lo>..b<hi>
 	Hi  int    `json:"hi"`
